@@ -123,9 +123,7 @@ Print Assumptions C09_code_action_resolves.
 Theorem C09_reached_offered_resolves :
   forall (notes : list (string * option string * list dblock)) (ops : list IndexHistory.op)
            (s : gstate) (k : akind) (kg : keygen) (target : nat) (title : string),
-         plain_notes notes ->
          distinct_keys notes ->
-         plain_ops ops ->
          reached notes ops s ->
          action (graph_ctx (gs_graph s)) k target = Ok (Some title) ->
          exists (key : string) (tree0 : tree),
@@ -139,9 +137,7 @@ Proof. exact ActionsGraph.reached_C09_offered_resolves. Qed.
 Check C09_reached_offered_resolves :
   forall (notes : list (string * option string * list dblock)) (ops : list IndexHistory.op)
            (s : gstate) (k : akind) (kg : keygen) (target : nat) (title : string),
-         plain_notes notes ->
          distinct_keys notes ->
-         plain_ops ops ->
          reached notes ops s ->
          action (graph_ctx (gs_graph s)) k target = Ok (Some title) ->
          exists (key : string) (tree0 : tree),
